@@ -2,7 +2,8 @@
     [list Z -> list Z] selected by a command number, so that the OCaml driver
     only converts integers.  Decoding of the flat integer stream into model
     records is done here, in Gallina. *)
-From RP2V Require Import Base.Prelude Base.Time Base.Dec Model.Types Model.Generated.
+From RP2V Require Import Base.Prelude Base.Time Base.Dec Model.Types Model.Generated Model.Txn Model.Matcher
+  Model.MatchSpec Model.Pipeline Model.Codec.
 Open Scope Z_scope.
 
 Definition b2z (b : bool) : Z := if b then 1 else 0.
@@ -59,3 +60,26 @@ Definition entry_dec (a : list Z) : list Z :=
     [-1]
   | _ => [-1]
   end.
+
+(** cmd 10 -- matcher as the code has it: [sched; hist] -> fractions
+    cmd 11 -- greedy specification on the same input
+    cmd 12 -- matcher with the re-push forced on (the repaired algorithm) *)
+Definition with_case (a : list Z) (f : list (Z * meth) -> txs -> list Z) : list Z :=
+  match rd_list rd_sched_entry a with
+  | None => [-1]
+  | Some (sched, s1) =>
+    match rd_hist s1 with
+    | None => [-1]
+    | Some (h, _) => match build h with Err e => [err_code e] | Ok t => f sched t end
+    end
+  end.
+Definition entry_match (a : list Z) : list Z := with_case a (fun sched t => enc_fracs (fractions_of gen_always_repush sched t)).
+Definition entry_spec (a : list Z) : list Z := with_case a (fun sched t => enc_fracs (spec_fractions_of sched t)).
+Definition entry_match_repush (a : list Z) : list Z := with_case a (fun sched t => enc_fracs (fractions_of true sched t)).
+
+(** cmd 13 -- taxable events: rows in order, with class and earn flag *)
+Definition entry_events (a : list Z) : list Z :=
+  with_case a (fun _ t => match taxable_events t with
+                          | Err e => [err_code e]
+                          | Ok evs => 0 :: Z.of_nat (length evs) :: flat_map (fun e => [t_row e; t_class e; b2z (t_is_earning e); t_balance_change e]) evs
+                          end).
